@@ -47,6 +47,9 @@ def main():
     elif args and args[0] == "--round4":
         base, offset = "/tmp/seed4", 9
         args = args[1:]
+    elif args and args[0] == "--round5":
+        base, offset = "/tmp/seed5", 12
+        args = args[1:]
     init = initial_results(args)
     kept = 0
     for cand in sorted(glob.glob(base + "_C*/cand*")):
